@@ -17,8 +17,8 @@ from esim.sched import Sched, SimAbort
 from . import base
 
 ID = "C15"
-QUICK_RUNS = 6000
-THOROUGH_RUNS = 400000
+QUICK_RUNS = 12000
+THOROUGH_RUNS = 500000
 LEVEL = "exploration"
 RULE = ("one run = 1-4 decorated generators with generated bodies (<= 12 statements, actions spanning yields, nested "
         "decorated generators) and a driver schedule of up to 40 drawn steps (which generator, next/send/throw/close, "
